@@ -64,10 +64,15 @@ Record verdict := mkVerdict {
   n_obs : N; n_probes : N; n_invalid : N;
   final_maps : bool; final_index : N }.
 
-Definition check_history (h : list obs) : verdict :=
-  let a := fold_left step_acc h (mkAcc init (false, []) 0 None None 0 0) in
+(** the three pieces are extracted separately so that the driver can expand run-length
+    encoded histories ("the same call n times") without building the list *)
+Definition acc0 : acc := mkAcc init (false, []) 0 None None 0 0.
+
+Definition verdict_of_acc (a : acc) : verdict :=
   mkVerdict (a_specfail a) (a_mismatch a) (a_pos a) (a_probes a) (a_invalid a)
             (mode_maps (a_model a)) (N.of_nat (index (a_model a))).
+
+Definition check_history (h : list obs) : verdict := verdict_of_acc (fold_left step_acc h acc0).
 
 Definition is_none {A} (o : option A) : bool := match o with None => true | Some _ => false end.
 Definition verdict_ok (v : verdict) : bool := is_none (spec_fail v) && is_none (model_fail v).
